@@ -15,7 +15,7 @@
 (*   cas.trees : digest id -> [root: raw, kids: digest id -> raw]          *)
 (*   cas.blobs : blob id   -> sequence of bytes                            *)
 (* A raw Directory message is what is stored, malformed or not:            *)
-(*   [state: "ok"|"missing", dirs: Seq([name, digest]),                    *)
+(*   [state: "ok"|"missing"|"bad" (does not parse), dirs: Seq([name,digest]),*)
 (*    files: Seq([name, blob, size, exec]), symlinks: Seq([name, target])] *)
 (* digest/blob = "BAD" stands for a Digest message that cannot be parsed.  *)
 (*                                                                         *)
